@@ -122,4 +122,34 @@ func init() {
 		{Name: "kmerof-check-after-use", File: kmer, Find: "\t\tx := lookUp[v]\n\t\tif x < 0 {\n\t\t\treturn 0, ErrBadKmerText\n\t\t}\n\t\tkmer = (kmer << 2) | Kmer(x)\n", Replace: "\t\tx := lookUp[v]\n\t\tkmer = (kmer << 2) | Kmer(x)\n\t\tif x < 0 {\n\t\t\treturn 0, ErrBadKmerText\n\t\t}\n", Rule: "livguard", Key: "kmerindex.KmerOf/index["},
 		{Name: "benign-check-as-positive-branch", File: kmer, Find: "\t\tx := lookUp[v]\n\t\tif x < 0 {\n\t\t\treturn 0, ErrBadKmerText\n\t\t}\n\t\tkmer = (kmer << 2) | Kmer(x)\n", Replace: "\t\tx := lookUp[v]\n\t\tif x >= 0 {\n\t\t\tkmer = (kmer << 2) | Kmer(x)\n\t\t} else {\n\t\t\treturn 0, ErrBadKmerText\n\t\t}\n"},
 	}
+	const mor = "morass/morass.go"
+	selftests["C11"] = []variant{
+		{Name: "clear-keeps-fast", File: mor, Find: "\tm.len = 0\n\tm.fast = false\n", Replace: "\tm.len = 0\n", Rule: "reset", Key: "morass.(*Morass).Clear/fast"},
+		{Name: "clear-keeps-pos", File: mor, Find: "\tm.files = m.files[:0]\n\tm.pos = 0\n", Replace: "\tm.files = m.files[:0]\n", Rule: "reset", Key: "morass.(*Morass).Clear/pos"},
+		{Name: "clear-default-keeps-chunk", File: mor, Find: "\tdefault:\n\t\t// No spare buffer; reuse the current one.\n\t\tm.chunk = m.chunk[:0]\n\t}\n", Replace: "\tdefault:\n\t}\n", Rule: "reset", Key: "morass.(*Morass).Clear/chunk"},
+		{Name: "clear-keeps-error", File: mor, Find: "\tm._err = nil\n", Replace: "", Rule: "reset", Key: "morass.(*Morass).Clear/_err"},
+		{Name: "clear-keeps-len-on-empty", File: mor, Find: "\tm.pos = 0\n\tm.len = 0\n\tm.fast = false\n", Replace: "\tm.pos = 0\n\tif len(m.files) > 0 {\n\t\tm.len = 0\n\t}\n\tm.fast = false\n", Rule: "reset", Key: "morass.(*Morass).Clear/len"},
+		{Name: "benign-fast-established-by-finalise", File: mor, Find: "\t\tif m.pos < int64(cap(m.chunk)) {\n\t\t\tm.fast = true\n\t\t\tsort.Sort(m.chunk)", Replace: "\t\tm.fast = m.pos < int64(cap(m.chunk))\n\t\tif m.fast {\n\t\t\tsort.Sort(m.chunk)", More: []edit{{mor, "\tm.len = 0\n\tm.fast = false\n", "\tm.len = 0\n"}}},
+	}
+	selftests["C12"] = []variant{
+		{Name: "finalise-no-wait", File: mor, Find: "\t\tm.writers.Wait()\n", Replace: "", Rule: "gojoin", Key: "morass.(*Morass).Push/go#1"},
+		{Name: "finalise-wait-after-reading-files", File: mor, Find: "\t\tm.writers.Wait()\n\t\tif err := m.err(); err != nil {\n\t\t\treturn err\n\t\t}\n\t\tfor _, f := range m.files {", Replace: "\t\tfor _, f := range m.files {", More: []edit{{mor, "\t\theap.Init(&m.files)\n", "\t\tm.writers.Wait()\n\t\tif err := m.err(); err != nil {\n\t\t\treturn err\n\t\t}\n\t\theap.Init(&m.files)\n"}}, Rule: "gojoin", Key: "morass.(*Morass).Push/go#1"},
+		{Name: "writer-done-not-deferred", File: mor, Find: "\t\tgo func() {\n\t\t\tdefer m.writers.Done()\n\t\t\tm.write()\n\t\t}()\n", Replace: "\t\tgo func() {\n\t\t\tm.writers.Done()\n\t\t\tm.write()\n\t\t}()\n", Rule: "gojoin", Key: "morass.(*Morass).Push/go#1"},
+		{Name: "add-after-go", File: mor, Find: "\t\tm.writers.Add(1)\n\t\tgo func() {\n\t\t\tdefer m.writers.Done()\n\t\t\tm.write()\n\t\t}()\n", Replace: "\t\tgo func() {\n\t\t\tdefer m.writers.Done()\n\t\t\tm.write()\n\t\t}()\n\t\tm.writers.Add(1)\n", Rule: "gojoin", Key: "morass.(*Morass).Push/go#1"},
+		{Name: "no-error-check-after-wait", File: mor, Find: "\t\tm.writers.Wait()\n\t\tif err := m.err(); err != nil {\n\t\t\treturn err\n\t\t}\n", Replace: "\t\tm.writers.Wait()\n", Rule: "gojoin", Key: "morass.(*Morass).Push/go#1"},
+		{Name: "files-appended-outside-lock", File: mor, Find: "\tm.filesLock.Lock()\n\tm.files = append(m.files, f)\n\tm.filesLock.Unlock()\n", Replace: "\tm.filesLock.Lock()\n\tm.filesLock.Unlock()\n\tm.files = append(m.files, f)\n", Rule: "lockset", Key: "morass.(*Morass).write/files"},
+		{Name: "err-read-without-lock", File: mor, Find: "func (m *Morass) err() error {\n\tm.errLock.Lock()\n\tdefer m.errLock.Unlock()\n\treturn m._err\n}", Replace: "func (m *Morass) err() error {\n\treturn m._err\n}", Rule: "lockset", Key: "morass.(*Morass).err/_err"},
+		{Name: "benign-write-takes-done", File: mor, Find: "\t\tgo func() {\n\t\t\tdefer m.writers.Done()\n\t\t\tm.write()\n\t\t}()\n", Replace: "\t\tgo m.bgWrite()\n", More: []edit{{mor, "func (m *Morass) setErr(err error) {", "func (m *Morass) bgWrite() {\n\tdefer m.writers.Done()\n\tm.write()\n}\n\nfunc (m *Morass) setErr(err error) {"}}},
+	}
+	selftests["C13"] = []variant{
+		{Name: "sync-result-stored-unconditionally", File: mor, Find: "\tif err := tf.Sync(); err != nil {\n\t\tm.setErr(err)\n\t}\n", Replace: "\tm.setErr(tf.Sync())\n", Rule: "errslot/sticky", Key: "morass.(*Morass).write/setErr#3"},
+		{Name: "encode-error-dropped", File: mor, Find: "\t\tif err := enc.Encode(&e); err != nil {\n\t\t\tm.setErr(err)\n\t\t\treturn\n\t\t}\n", Replace: "\t\tif err := enc.Encode(&e); err != nil {\n\t\t\treturn\n\t\t}\n", Rule: "errslot/propagate", Key: "morass.(*Morass).write/Encode#1"},
+		{Name: "sync-error-ignored", File: mor, Find: "\tif err := tf.Sync(); err != nil {\n\t\tm.setErr(err)\n\t}\n", Replace: "\ttf.Sync()\n", Rule: "errslot/propagate", Key: "morass.(*Morass).write/Sync#1"},
+		{Name: "seek-error-ignored", File: mor, Find: "\t\t\t_, err := f.file.Seek(0, 0)\n\t\t\tif err != nil {\n\t\t\t\treturn err\n\t\t\t}\n\t\t\terr = f.decoder.Decode(&f.head)", Replace: "\t\t\tf.file.Seek(0, 0)\n\t\t\terr := f.decoder.Decode(&f.head)", Rule: "errslot/propagate", Key: "morass.(*Morass).Finalise/Seek#1"},
+		{Name: "push-skips-error-check-after-handoff", File: mor, Find: "\tif err := m.err(); err != nil {\n\t\treturn err\n\t}\n\n\tif m.chunk == nil {\n\t\treturn errors.New(\"morass: push on finalised morass\")", Replace: "\tif m.chunk == nil {\n\t\treturn errors.New(\"morass: push on finalised morass\")", Rule: "errslot/propagate", Key: "morass.(*Morass).Push/consults-err"},
+		{Name: "fast-eof-skips-autoclean", File: mor, Find: "\t\t\tif m.AutoClear {\n\t\t\t\tm.Clear()\n\t\t\t}\n\t\t\tif m.AutoClean {\n\t\t\t\tos.RemoveAll(m.dir)\n\t\t\t}\n\t\t\terr = io.EOF\n\t\t}\n\t} else {", Replace: "\t\t\tif m.AutoClear {\n\t\t\t\tm.Clear()\n\t\t\t}\n\t\t\terr = io.EOF\n\t\t}\n\t} else {", Rule: "residue", Key: "morass.(*Morass).Pull/EOF#1/AutoClean"},
+		{Name: "merge-eof-skips-autoclear", File: mor, Find: "\t\t} else {\n\t\t\tif m.AutoClear {\n\t\t\t\tm.Clear()\n\t\t\t}\n\t\t\tif m.AutoClean {", Replace: "\t\t} else {\n\t\t\tif m.AutoClean {", Rule: "residue", Key: "morass.(*Morass).Pull/EOF#2/AutoClear"},
+		{Name: "cleanup-removes-nothing", File: mor, Find: "\treturn os.RemoveAll(m.dir)\n}", Replace: "\treturn os.Remove(m.dir)\n}", Rule: "residue", Key: "morass.(*Morass).CleanUp/removes-dir"},
+		{Name: "benign-sticky-inside-seterr", File: mor, Find: "\tm.errLock.Lock()\n\tm._err = err\n\tm.errLock.Unlock()\n", Replace: "\tm.errLock.Lock()\n\tif m._err == nil {\n\t\tm._err = err\n\t}\n\tm.errLock.Unlock()\n", More: []edit{{mor, "\tif err := tf.Sync(); err != nil {\n\t\tm.setErr(err)\n\t}\n", "\tm.setErr(tf.Sync())\n"}}},
+	}
 }
